@@ -1,8 +1,879 @@
 //! Special-purpose explorers (RangeMap state space, class expressions, built-in tables, parser
-//! round trips, determinism, ill-formed definitions).
+//! round trips).
+use crate::ast;
+use crate::collections::Map;
+use crate::nfa::NFA;
+use crate::nfa_to_dfa::nfa_to_dfa;
+use crate::px_compile;
+use crate::range_map::{Range, RangeMap};
+use refmodel::dump::{lookup, Dump, Target};
+use refmodel::iset::{self, ISet};
+use refmodel::re::{self, Re};
 use refmodel::serde_json::{json, Value};
+use std::collections::{BTreeSet, HashMap, HashSet, VecDeque};
+use std::time::Instant;
+
+type Ranges = Vec<(u32, u32)>;
+
+/// All sorted lists of disjoint (possibly adjacent) inclusive ranges over `0..n`.
+fn range_lists(n: u32) -> Vec<Ranges> {
+    fn go(from: u32, n: u32, cur: &mut Ranges, out: &mut Vec<Ranges>) {
+        out.push(cur.clone());
+        for s in from..n {
+            for e in s..n {
+                cur.push((s, e));
+                go(e + 1, n, cur, out);
+                cur.pop();
+            }
+        }
+    }
+    let mut out = vec![];
+    go(0, n, &mut vec![], &mut out);
+    out
+}
+
+fn mk_map(r: &Ranges) -> RangeMap<()> {
+    RangeMap::from_non_overlapping_sorted_ranges(r.iter().map(|&(s, e)| Range { start: s, end: e, value: () }).collect())
+}
+
+fn contents<A>(m: &RangeMap<A>) -> Ranges {
+    m.iter().map(|r| (r.start, r.end)).collect()
+}
+
+fn mask_of(r: &Ranges) -> u32 {
+    let mut m = 0u32;
+    for &(s, e) in r {
+        for i in s..=e.min(31) {
+            m |= 1 << i;
+        }
+    }
+    m
+}
+
+fn well_formed(r: &Ranges) -> Option<String> {
+    for &(s, e) in r {
+        if s > e {
+            return Some(format!("inverted range ({s},{e})"));
+        }
+    }
+    for w in r.windows(2) {
+        if w[0].1 >= w[1].0 {
+            return Some(format!("ranges ({},{}) and ({},{}) overlap or are out of order", w[0].0, w[0].1, w[1].0, w[1].1));
+        }
+    }
+    None
+}
+
+#[derive(Clone, Debug)]
+enum Op {
+    Insert(u32, u32),
+    InsertRanges(Ranges),
+    Remove(Ranges),
+}
+
+fn show_op(op: &Op) -> String {
+    match op {
+        Op::Insert(s, e) => format!("insert({s},{e})"),
+        Op::InsertRanges(r) => format!("insert_ranges({r:?})"),
+        Op::Remove(r) => format!("remove_ranges({r:?})"),
+    }
+}
+
+/// (1) `RangeMap<()>`: BFS from the empty map to fixpoint; invariant in every state.
+fn rangemap_unit(n: u32, viols: &mut Vec<Value>) -> Value {
+    let lists = range_lists(n);
+    let mut ops: Vec<Op> = vec![];
+    for s in 0..n {
+        for e in s..n {
+            ops.push(Op::Insert(s, e));
+        }
+    }
+    for l in &lists {
+        ops.push(Op::InsertRanges(l.clone()));
+        ops.push(Op::Remove(l.clone()));
+    }
+    let mut seen: HashMap<Ranges, (usize, Option<(Ranges, usize)>)> = HashMap::new(); // state -> (depth, parent + op index)
+    let mut queue: VecDeque<Ranges> = VecDeque::new();
+    seen.insert(vec![], (0, None));
+    queue.push_back(vec![]);
+    let mut transitions = 0u64;
+    let mut max_depth = 0usize;
+    let mut malformed_states = 0u64;
+    while let Some(st) = queue.pop_front() {
+        let depth = seen[&st].0;
+        max_depth = max_depth.max(depth);
+        let model = mask_of(&st);
+        for (oi, op) in ops.iter().enumerate() {
+            transitions += 1;
+            // a malformed state is reported once and not expanded further
+            let r = std::panic::catch_unwind(|| {
+                let mut m = mk_map(&st);
+                match op {
+                    Op::Insert(s, e) => m.insert(*s, *e, (), |_, _| {}),
+                    Op::InsertRanges(l) => m.insert_ranges(mk_map(l).into_iter(), |_, _| {}),
+                    Op::Remove(l) => m.remove_ranges(&mk_map(l)),
+                }
+                contents(&m)
+            });
+            let expect = match op {
+                Op::Insert(s, e) => model | mask_of(&vec![(*s, *e)]),
+                Op::InsertRanges(l) => model | mask_of(l),
+                Op::Remove(l) => model & !mask_of(l),
+            };
+            let path = |seen: &HashMap<Ranges, (usize, Option<(Ranges, usize)>)>| -> Vec<String> {
+                let mut p = vec![show_op(op)];
+                let mut cur = st.clone();
+                while let Some((_, Some((par, oi)))) = seen.get(&cur) {
+                    p.push(show_op(&ops[*oi]));
+                    cur = par.clone();
+                }
+                p.reverse();
+                p
+            };
+            match r {
+                Err(_) => {
+                    if viols.len() < 20 {
+                        viols.push(json!({"kind": "rangemap-panic", "definition": format!("RangeMap<()> ops {:?}", path(&seen)), "input": format!("{st:?}"), "detail": "operation panicked"}));
+                    }
+                }
+                Ok(next) => {
+                    let wf = well_formed(&next);
+                    let got = mask_of(&next);
+                    if wf.is_some() || got != expect {
+                        malformed_states += 1;
+                        if viols.len() < 20 {
+                            viols.push(json!({
+                                "kind": "rangemap", "definition": format!("RangeMap<()> ops {:?}", path(&seen)), "input": format!("state {st:?}"),
+                                "detail": format!("result {next:?}: {}; point set {got:#010b}, bitset model {expect:#010b}", wf.unwrap_or("well-formed".into())),
+                            }));
+                        }
+                        continue;
+                    }
+                    if !seen.contains_key(&next) {
+                        seen.insert(next.clone(), (depth + 1, Some((st.clone(), oi))));
+                        queue.push_back(next);
+                    }
+                }
+            }
+        }
+    }
+    json!({"universe": n, "operations": ops.len(), "states": seen.len(), "transitions": transitions, "max_depth": max_depth, "bad_results": malformed_states, "fixpoint": true})
+}
+
+/// (2) `RangeMap<Set<tag>>` (the NFA's use): all operation sequences of a depth with distinct
+/// tags; value at each point = union of the tags of the inserted ranges covering it.
+fn rangemap_tagged(n: u32, depth: usize, viols: &mut Vec<Value>) -> Value {
+    let lists = range_lists(n);
+    let mut ops: Vec<Op> = vec![];
+    for s in 0..n {
+        for e in s..n {
+            ops.push(Op::Insert(s, e));
+        }
+    }
+    for l in &lists {
+        if !l.is_empty() {
+            ops.push(Op::InsertRanges(l.clone()));
+            ops.push(Op::Remove(l.clone()));
+        }
+    }
+    let mut seqs = 0u64;
+    let mut states: HashSet<Vec<(u32, u32, u32)>> = HashSet::new();
+    let mut idx = vec![0usize; depth];
+    let merge = |a: &mut u32, b: u32| *a |= b;
+    loop {
+        seqs += 1;
+        let r = std::panic::catch_unwind(|| {
+            let mut m: RangeMap<u32> = RangeMap::new();
+            let mut model = vec![0u32; n as usize];
+            let mut trace = vec![];
+            for (k, &oi) in idx.iter().enumerate() {
+                let tag = 1u32 << k;
+                match &ops[oi] {
+                    Op::Insert(s, e) => {
+                        m.insert(*s, *e, tag, merge);
+                        for p in *s..=*e {
+                            model[p as usize] |= tag;
+                        }
+                    }
+                    Op::InsertRanges(l) => {
+                        let other: RangeMap<u32> = RangeMap::from_non_overlapping_sorted_ranges(l.iter().map(|&(s, e)| Range { start: s, end: e, value: tag }).collect());
+                        m.insert_ranges(other.into_iter(), merge);
+                        for &(s, e) in l {
+                            for p in s..=e {
+                                model[p as usize] |= tag;
+                            }
+                        }
+                    }
+                    Op::Remove(l) => {
+                        m.remove_ranges(&mk_map(l));
+                        for &(s, e) in l {
+                            for p in s..=e {
+                                model[p as usize] = 0;
+                            }
+                        }
+                    }
+                }
+                let c: Vec<(u32, u32, u32)> = m.iter().map(|r| (r.start, r.end, r.value)).collect();
+                // invariant after every step
+                let plain: Ranges = c.iter().map(|x| (x.0, x.1)).collect();
+                let mut bad = well_formed(&plain);
+                if bad.is_none() {
+                    for p in 0..n {
+                        let v = c.iter().find(|x| x.0 <= p && p <= x.1).map(|x| x.2).unwrap_or(0);
+                        if v != model[p as usize] {
+                            bad = Some(format!("point {p}: tags {v:#b}, model {:#b}", model[p as usize]));
+                            break;
+                        }
+                    }
+                }
+                trace.push(c.clone());
+                if let Some(b) = bad {
+                    return Err((k, b, c));
+                }
+            }
+            Ok(trace)
+        });
+        match r {
+            Ok(Ok(tr)) => {
+                for c in tr {
+                    states.insert(c);
+                }
+            }
+            Ok(Err((k, b, c))) => {
+                if viols.len() < 20 {
+                    viols.push(json!({"kind": "rangemap-tagged", "definition": format!("RangeMap<Set<tag>> ops {:?}", idx.iter().map(|i| show_op(&ops[*i])).collect::<Vec<_>>()), "input": format!("after step {k}"), "detail": format!("{b}; contents {c:?}")}));
+                }
+            }
+            Err(_) => {
+                if viols.len() < 20 {
+                    viols.push(json!({"kind": "rangemap-panic", "definition": format!("RangeMap<Set<tag>> ops {:?}", idx.iter().map(|i| show_op(&ops[*i])).collect::<Vec<_>>()), "input": "", "detail": "operation panicked"}));
+                }
+            }
+        }
+        let mut k = 0;
+        loop {
+            if k == depth {
+                return json!({"universe": n, "operations": ops.len(), "depth": depth, "sequences": seqs, "states": states.len(), "transitions": seqs * depth as u64});
+            }
+            idx[k] += 1;
+            if idx[k] < ops.len() {
+                break;
+            }
+            idx[k] = 0;
+            k += 1;
+        }
+    }
+}
+
+// ------------------------------------------------------------------ class expressions
+
+pub fn re_to_ast(r: &Re) -> ast::Regex {
+    use ast::Regex as A;
+    match r {
+        Re::Eoi => A::EndOfInput,
+        Re::Char(c) => A::Char(*c),
+        Re::Str(s) => A::String(s.clone()),
+        Re::Set(v) => A::CharSet(ast::CharSet(v.iter().map(|(a, b)| if a == b { ast::CharOrRange::Char(*a) } else { ast::CharOrRange::Range(*a, *b) }).collect())),
+        Re::Any => A::Any,
+        Re::Builtin(n) => A::Builtin(ast::Builtin(n.clone())),
+        Re::Var(n) => A::Var(ast::Var(n.clone())),
+        Re::Star(x) => A::ZeroOrMore(Box::new(re_to_ast(x))),
+        Re::Plus(x) => A::OneOrMore(Box::new(re_to_ast(x))),
+        Re::Opt(x) => A::ZeroOrOne(Box::new(re_to_ast(x))),
+        Re::Cat(x, y) => A::Concat(Box::new(re_to_ast(x)), Box::new(re_to_ast(y))),
+        Re::Alt(x, y) => A::Or(Box::new(re_to_ast(x)), Box::new(re_to_ast(y))),
+        Re::Diff(x, y) => A::Diff(Box::new(re_to_ast(x)), Box::new(re_to_ast(y))),
+    }
+}
+
+pub fn ast_to_re(r: &ast::Regex) -> Re {
+    use ast::Regex as A;
+    match r {
+        A::EndOfInput => Re::Eoi,
+        A::Char(c) => Re::Char(*c),
+        A::String(s) => Re::Str(s.clone()),
+        A::CharSet(cs) => Re::Set(
+            cs.0.iter()
+                .map(|c| match c {
+                    ast::CharOrRange::Char(c) => (*c, *c),
+                    ast::CharOrRange::Range(a, b) => (*a, *b),
+                })
+                .collect(),
+        ),
+        A::Any => Re::Any,
+        A::Builtin(b) => Re::Builtin(b.0.clone()),
+        A::Var(v) => Re::Var(v.0.clone()),
+        A::ZeroOrMore(x) => Re::Star(Box::new(ast_to_re(x))),
+        A::OneOrMore(x) => Re::Plus(Box::new(ast_to_re(x))),
+        A::ZeroOrOne(x) => Re::Opt(Box::new(ast_to_re(x))),
+        A::Concat(x, y) => Re::Cat(Box::new(ast_to_re(x)), Box::new(ast_to_re(y))),
+        A::Or(x, y) => Re::Alt(Box::new(ast_to_re(x)), Box::new(ast_to_re(y))),
+        A::Diff(x, y) => Re::Diff(Box::new(ast_to_re(x)), Box::new(ast_to_re(y))),
+    }
+}
+
+/// Compile one class expression as the only rule (through `add_re` -> NFA -> DFA) and return the
+/// set of code points state 0 accepts a transition on.
+fn compiled_class(r: &Re) -> Result<ISet, String> {
+    let text = format!("L -> usize;\n{} = 0,\n", re::print_min(r));
+    // with code generation: a class the automaton can hold but the code generator cannot print is a failure too
+    let c = std::panic::catch_unwind(|| px_compile::compile_text(&text, true)).map_err(|e| {
+        format!("macro pipeline panics: {}", e.downcast_ref::<String>().cloned().or_else(|| e.downcast_ref::<&str>().map(|s| s.to_string())).unwrap_or_default())
+    })??;
+    let d = Dump::parse(&c.dump)?;
+    let st = &d.states[0];
+    let mut v: Vec<(u32, u32)> = vec![];
+    // chars first, then ranges, then any: membership = some transition exists
+    for (c, _) in &st.chars {
+        v.push((*c, *c));
+    }
+    for (s, e, _) in &st.ranges {
+        v.push((*s, *e));
+    }
+    if st.any.is_some() {
+        v.push((0, 0x10FFFF));
+    }
+    Ok(iset::norm(v))
+}
+
+fn class_atoms(base: u32) -> Vec<Re> {
+    let c = |k: u32| char::from_u32(base + k).unwrap_or_else(|| char::from_u32(base + k + 0x800).unwrap());
+    vec![
+        Re::Char(c(1)),
+        Re::Set(vec![(c(0), c(3))]),
+        Re::Set(vec![(c(2), c(5))]),
+        Re::Set(vec![(c(0), c(1)), (c(4), c(7)), (c(1), c(1))]),
+        Re::Set(vec![(c(1), c(2)), (c(2), c(6))]),
+        Re::Set(vec![(c(0), c(0)), (c(3), c(3)), (c(6), c(7))]),
+        Re::Set(vec![(c(0), c(7))]),
+        Re::Any,
+    ]
+}
+
+fn class_exprs(atoms: &[Re], depth: usize) -> Vec<Re> {
+    let mut cur: Vec<Re> = atoms.to_vec();
+    for _ in 1..depth {
+        let mut next = cur.clone();
+        for a in &cur {
+            for b in &cur {
+                next.push(re::alt(a.clone(), b.clone()));
+                next.push(re::diff(a.clone(), b.clone()));
+            }
+        }
+        cur = next;
+    }
+    cur
+}
+
+/// Placement of the 8-point universe on the code-point line.
+fn placements() -> Vec<(&'static str, Vec<u32>)> {
+    vec![
+        ("ascii letters", (0x61..0x69).collect()),
+        ("start of the line", (0..8).collect()),
+        ("straddling the surrogate gap", vec![0xD7FC, 0xD7FD, 0xD7FE, 0xD7FF, 0xE000, 0xE001, 0xE002, 0xE003]),
+        ("end of the line", (0x10FFF8..=0x10FFFF).collect()),
+    ]
+}
+
+fn classexpr(depth: usize, stride: usize, viols: &mut Vec<Value>) -> Value {
+    use std::sync::atomic::{AtomicU64, AtomicUsize, Ordering};
+    use std::sync::Mutex;
+    let total = AtomicU64::new(0);
+    let queries = AtomicU64::new(0);
+    let empties = AtomicU64::new(0);
+    let shared: Mutex<(HashSet<ISet>, Vec<Value>, Vec<Value>)> = Mutex::new((HashSet::new(), vec![], vec![]));
+    for (pname, points) in placements() {
+        let c = |k: usize| char::from_u32(points[k]).unwrap();
+        let atoms = vec![
+            Re::Char(c(1)),
+            Re::Set(vec![(c(0), c(3))]),
+            Re::Set(vec![(c(2), c(5))]),
+            Re::Set(vec![(c(0), c(1)), (c(4), c(7)), (c(1), c(1))]),
+            Re::Set(vec![(c(1), c(2)), (c(2), c(6))]),
+            Re::Set(vec![(c(0), c(0)), (c(3), c(3)), (c(6), c(7)), (c(3), c(3))]),
+            Re::Set(vec![(c(0), c(7))]),
+            Re::Any,
+        ];
+        let exprs = class_exprs(&atoms, depth);
+        let full_upto = atoms.len() + 2 * atoms.len() * atoms.len();
+        let next = AtomicUsize::new(0);
+        std::thread::scope(|sc| {
+            for _ in 0..16 {
+                sc.spawn(|| loop {
+                    let i = next.fetch_add(1, Ordering::SeqCst);
+                    if i >= exprs.len() {
+                        break;
+                    }
+                    if i % stride != 0 && i >= full_upto {
+                        continue;
+                    }
+                    let e = &exprs[i];
+                    total.fetch_add(1, Ordering::Relaxed);
+                    let expect = iset::scalar_only(&re::class_of(e, &Default::default()).unwrap());
+                    if expect.is_empty() {
+                        // an empty class is not a well-formed definition (the rule could never match)
+                        empties.fetch_add(1, Ordering::Relaxed);
+                        continue;
+                    }
+                    match compiled_class(e) {
+                        Err(msg) => {
+                            let mut g = shared.lock().unwrap();
+                            if g.1.len() < 30 {
+                                g.1.push(json!({"kind": "class-panic", "definition": re::print_min(e), "input": null, "detail": format!("{pname}: {msg}")}));
+                            }
+                        }
+                        Ok(got) => {
+                            let got = iset::scalar_only(&got);
+                            // every universe point and every boundary +-1 of both sides
+                            let mut qs: BTreeSet<u32> = points.iter().copied().collect();
+                            for (s, e) in expect.iter().chain(got.iter()) {
+                                for q in [s.wrapping_sub(1), *s, s + 1, e.wrapping_sub(1), *e, e + 1] {
+                                    if q <= 0x10FFFF && char::from_u32(q).is_some() {
+                                        qs.insert(q);
+                                    }
+                                }
+                            }
+                            for q in qs {
+                                queries.fetch_add(1, Ordering::Relaxed);
+                                if iset::contains(&expect, q) != iset::contains(&got, q) {
+                                    let mut g = shared.lock().unwrap();
+                                    if g.1.len() < 30 {
+                                        g.1.push(json!({
+                                            "kind": "class", "definition": re::print_min(e), "input": char::from_u32(q).map(|c| c.to_string()),
+                                            "detail": format!("{pname}: U+{q:04X} accepted by the compiled class: {}, member by set algebra: {}", iset::contains(&got, q), iset::contains(&expect, q)),
+                                        }));
+                                    }
+                                    break;
+                                }
+                            }
+                            let mut g = shared.lock().unwrap();
+                            if g.2.len() < 3 && matches!(e, Re::Diff(..)) && i > 100 && i % 37 == 0 {
+                                g.2.push(json!({"placement": pname, "expr": re::print_min(e), "set": format!("{expect:?}")}));
+                            }
+                            g.0.insert(expect);
+                        }
+                    }
+                });
+            }
+        });
+    }
+    let (distinct, v, samples) = shared.into_inner().unwrap();
+    viols.extend(v);
+    json!({"expressions": total.into_inner(), "empty_skipped": empties.into_inner(), "point_queries": queries.into_inner(), "distinct_sets": distinct.len(), "depth": depth, "stride_beyond_depth2": stride, "samples": samples})
+}
+
+/// Quoted and boundary class expressions (always run).
+fn class_regress(viols: &mut Vec<Value>) -> Value {
+    use refmodel::re::*;
+    let d = |a: char, b: char| set(&[(a, b)]);
+    let cases: Vec<Re> = vec![
+        diff(set(&[('0', '5'), ('7', '9')]), d('0', '8')),
+        diff(Re::Any, d('\u{0}', '\u{D7FF}')),
+        diff(Re::Any, d('\u{E000}', '\u{10FFFF}')),
+        diff(d('\u{D000}', '\u{F000}'), d('\u{D000}', '\u{D7FF}')),
+        diff(d('\u{D000}', '\u{F000}'), d('\u{E000}', '\u{F000}')),
+        diff(Re::Any, Re::Any),
+        diff(diff(Re::Any, d('b', 'y')), ch('a')),
+        diff(diff(d('a', 'z'), d('c', 'e')), d('d', 'x')),
+        diff(builtin("alphabetic"), d('a', 'z')),
+        diff(builtin("ascii_alphanumeric"), builtin("ascii_digit")),
+        diff(alt(builtin("ascii_digit"), d('a', 'f')), ch('c')),
+        diff(Re::Any, builtin("alphabetic")),
+        diff(diff(Re::Any, builtin("whitespace")), builtin("ascii_punctuation")),
+        set(&[('a', 'a'), ('a', 'a')]),
+        set(&[('a', 'c'), ('b', 'b'), ('b', 'd'), ('a', 'a')]),
+        alt(d('a', 'c'), alt(ch('b'), d('b', 'e'))),
+        diff(d('a', 'e'), d('a', 'e')),
+        diff(d('a', 'e'), d('a', 'c')),
+        diff(d('a', 'e'), d('c', 'e')),
+        diff(set(&[('a', 'b'), ('d', 'e'), ('g', 'h')]), d('b', 'g')),
+        diff(set(&[('a', 'b'), ('d', 'e'), ('g', 'h')]), d('d', 'e')),
+        diff(set(&[('a', 'b'), ('d', 'e'), ('g', 'h')]), set(&[('a', 'a'), ('e', 'e'), ('g', 'h')])),
+    ];
+    let mut n = 0;
+    for e in &cases {
+        let expect = iset::scalar_only(&re::class_of(e, &Default::default()).unwrap());
+        if expect.is_empty() {
+            continue;
+        }
+        n += 1;
+        match compiled_class(e) {
+            Err(msg) => viols.push(json!({"kind": "class-panic", "definition": re::print_min(e), "input": null, "detail": msg})),
+            Ok(got) => {
+                let got = iset::scalar_only(&got);
+                if got != expect {
+                    // first differing scalar value
+                    let a = iset::diff(&got, &expect);
+                    let b = iset::diff(&expect, &got);
+                    let q = a.first().or(b.first()).map(|x| x.0).unwrap_or(0);
+                    viols.push(json!({"kind": "class", "definition": re::print_min(e), "input": char::from_u32(q).map(|c| c.to_string()),
+                        "detail": format!("U+{q:04X} accepted by the compiled class: {}, member by set algebra: {}", iset::contains(&got, q), iset::contains(&expect, q))}));
+                }
+            }
+        }
+    }
+    json!({"cases": n})
+}
+
+// ------------------------------------------------------------------ built-ins (C13, automaton level)
+
+fn builtins_job(viols: &mut Vec<Value>) -> Value {
+    use crate::builtin::BUILTIN_RANGES;
+    let mut evaluations = 0u64;
+    let mut per_name = vec![];
+    let names = refmodel::builtins::builtin_names();
+    // the documented list and lexgen's list must coincide
+    let lexgen_names: Vec<&str> = BUILTIN_RANGES.iter().map(|(n, _)| *n).collect();
+    if names != lexgen_names {
+        viols.push(json!({"kind": "builtin-names", "definition": format!("{lexgen_names:?}"), "input": null, "detail": format!("documented names {names:?}")}));
+    }
+    let mut exprs: Vec<(String, Re)> = names.iter().map(|n| (n.to_string(), re::builtin(n))).collect();
+    // in combination
+    let combos = [("alphabetic", "numeric"), ("lowercase", "uppercase"), ("XID_Continue", "XID_Start"), ("alphanumeric", "alphabetic"), ("ascii_graphic", "ascii_alphanumeric"), ("whitespace", "control")];
+    for (a, b) in combos {
+        exprs.push((format!("{a}|{b}"), re::alt(re::builtin(a), re::builtin(b))));
+        exprs.push((format!("{a}#{b}"), re::diff(re::builtin(a), re::builtin(b))));
+        exprs.push((format!("{b}#{a}"), re::diff(re::builtin(b), re::builtin(a))));
+    }
+    for n in ["alphabetic", "uppercase", "XID_Start", "ascii_hexdigit"] {
+        exprs.push((format!("{n}#[a-z]"), re::diff(re::builtin(n), re::set(&[('a', 'z')]))));
+        exprs.push((format!("_#{n}"), re::diff(Re::Any, re::builtin(n))));
+    }
+    for (label, e) in &exprs {
+        let expect = iset::scalar_only(&re::class_of(e, &Default::default()).unwrap());
+        // table well-formedness for plain names
+        if let Re::Builtin(n) = e {
+            if let Some((_, b)) = BUILTIN_RANGES.iter().find(|(m, _)| m == n) {
+                let t: Ranges = b.get_ranges().to_vec();
+                let mut bad = well_formed(&t);
+                if bad.is_none() {
+                    for w in t.windows(2) {
+                        if w[0].1 + 1 == w[1].0 {
+                            bad = Some(format!("adjacent ranges ({},{}) ({},{})", w[0].0, w[0].1, w[1].0, w[1].1));
+                        }
+                    }
+                    for &(s, e) in &t {
+                        if char::from_u32(s).is_none() || char::from_u32(e).is_none() {
+                            bad = Some(format!("end point of ({s:#x},{e:#x}) is not a scalar value"));
+                        }
+                    }
+                }
+                if let Some(b) = bad {
+                    viols.push(json!({"kind": "builtin-table", "definition": format!("$${n}"), "input": null, "detail": b}));
+                }
+            }
+        }
+        match compiled_class(e) {
+            Err(msg) => viols.push(json!({"kind": "builtin-panic", "definition": re::print_min(e), "input": null, "detail": msg})),
+            Ok(got) => {
+                // walk all 1,112,064 scalar values
+                let mut diffs = 0u64;
+                let mut first: Option<u32> = None;
+                let (mut gi, mut ei) = (0usize, 0usize);
+                for c in 0..=0x10FFFFu32 {
+                    if (0xD800..=0xDFFF).contains(&c) {
+                        continue;
+                    }
+                    evaluations += 1;
+                    while gi < got.len() && got[gi].1 < c {
+                        gi += 1;
+                    }
+                    while ei < expect.len() && expect[ei].1 < c {
+                        ei += 1;
+                    }
+                    let g = gi < got.len() && got[gi].0 <= c;
+                    let x = ei < expect.len() && expect[ei].0 <= c;
+                    if g != x {
+                        diffs += 1;
+                        first.get_or_insert(c);
+                    }
+                }
+                if diffs > 0 {
+                    let q = first.unwrap();
+                    viols.push(json!({
+                        "kind": "builtin", "definition": re::print_min(e), "input": char::from_u32(q).map(|c| c.to_string()),
+                        "detail": format!("{diffs} scalar values differ from the Rust predicate; first U+{q:04X}: lexgen accepts {}, predicate {}", iset::contains(&got, q), iset::contains(&expect, q)),
+                    }));
+                }
+                per_name.push(json!({"expr": label, "members": iset::count(&expect), "ranges": expect.len(), "differing": diffs}));
+            }
+        }
+    }
+    json!({"expressions": exprs.len(), "evaluations": evaluations, "per_expr": per_name})
+}
+
+// ------------------------------------------------------------------ parser round trips (C16)
+
+fn parse_regex_text(text: &str) -> Result<Vec<(Option<String>, Re, Option<Re>)>, String> {
+    // parse a whole lexer body and return (let name | None for a rule, regex, right ctx)
+    use syn::parse::Parser;
+    let mut sat = crate::semantic_action_table::SemanticActionTable::new();
+    let src = format!("L -> usize;\n{text}");
+    let l = std::panic::catch_unwind(move || {
+        let r = ast::make_lexer_parser(&mut sat).parse_str(&src);
+        r.map(|l| l.rules)
+    })
+    .map_err(|_| "parser panicked".to_string())?
+    .map_err(|e| format!("parse error: {e}"))?;
+    let mut out = vec![];
+    for r in l {
+        match r {
+            ast::Rule::RuleOrBinding(ast::RuleOrBinding::Binding(b)) => out.push((Some(b.var.0.clone()), ast_to_re(&b.re), None)),
+            ast::Rule::RuleOrBinding(ast::RuleOrBinding::Rule(r)) => out.push((None, ast_to_re(&r.lhs.re), r.lhs.right_ctx.as_ref().map(ast_to_re))),
+            _ => return Err("unexpected item".into()),
+        }
+    }
+    Ok(out)
+}
+
+/// All ways of adding redundant parentheses around subtrees (each subtree independently).
+fn print_with_parens(r: &Re, mask: &mut u64, bit: &mut u32, min_level: u8) -> String {
+    fn level(r: &Re) -> u8 {
+        match r {
+            Re::Alt(..) => 0,
+            Re::Cat(..) => 1,
+            Re::Star(_) | Re::Plus(_) | Re::Opt(_) => 2,
+            Re::Diff(..) => 3,
+            _ => 4,
+        }
+    }
+    let my_bit = *bit;
+    *bit += 1;
+    let s = match r {
+        Re::Star(x) => format!("{}*", print_with_parens(x, mask, bit, 2)),
+        Re::Plus(x) => format!("{}+", print_with_parens(x, mask, bit, 2)),
+        Re::Opt(x) => format!("{}?", print_with_parens(x, mask, bit, 2)),
+        Re::Cat(x, y) => {
+            let a = print_with_parens(x, mask, bit, 1);
+            let b = print_with_parens(y, mask, bit, 2);
+            format!("{a} {b}")
+        }
+        Re::Alt(x, y) => {
+            let a = print_with_parens(x, mask, bit, 0);
+            let b = print_with_parens(y, mask, bit, 1);
+            format!("{a} | {b}")
+        }
+        Re::Diff(x, y) => {
+            let a = print_with_parens(x, mask, bit, 3);
+            let b = print_with_parens(y, mask, bit, 4);
+            format!("{a} # {b}")
+        }
+        o => re::print_min(o),
+    };
+    let need = level(r) < min_level;
+    let extra = (*mask >> my_bit) & 1 == 1;
+    if need || extra {
+        format!("({s})")
+    } else {
+        s
+    }
+}
+
+fn subtrees(r: &Re, out: &mut Vec<Re>) {
+    out.push(r.clone());
+    match r {
+        Re::Star(x) | Re::Plus(x) | Re::Opt(x) => subtrees(x, out),
+        Re::Cat(x, y) | Re::Alt(x, y) | Re::Diff(x, y) => {
+            subtrees(x, out);
+            subtrees(y, out);
+        }
+        _ => {}
+    }
+}
+
+fn replace_first(r: &Re, target: &Re, with: &Re, done: &mut bool) -> Re {
+    if !*done && r == target {
+        *done = true;
+        return with.clone();
+    }
+    match r {
+        Re::Star(x) => Re::Star(Box::new(replace_first(x, target, with, done))),
+        Re::Plus(x) => Re::Plus(Box::new(replace_first(x, target, with, done))),
+        Re::Opt(x) => Re::Opt(Box::new(replace_first(x, target, with, done))),
+        Re::Cat(x, y) => {
+            let a = replace_first(x, target, with, done);
+            Re::Cat(Box::new(a), Box::new(replace_first(y, target, with, done)))
+        }
+        Re::Alt(x, y) => {
+            let a = replace_first(x, target, with, done);
+            Re::Alt(Box::new(a), Box::new(replace_first(y, target, with, done)))
+        }
+        Re::Diff(x, y) => {
+            let a = replace_first(x, target, with, done);
+            Re::Diff(Box::new(a), Box::new(replace_first(y, target, with, done)))
+        }
+        o => o.clone(),
+    }
+}
+
+fn parser_trees(size: usize) -> Vec<Re> {
+    use refmodel::re::*;
+    let atoms = vec![ch('a'), st("ab"), set(&[('a', 'b')]), Re::Any, var("v"), builtin("ascii_digit"), Re::Eoi];
+    let mut memo: Vec<Vec<Re>> = vec![vec![], atoms];
+    for s in 2..=size {
+        let mut v = vec![];
+        for r in &memo[s - 1] {
+            v.push(star(r.clone()));
+            v.push(plus(r.clone()));
+            v.push(opt(r.clone()));
+        }
+        for l in 1..s - 1 {
+            let rr = s - 1 - l;
+            for x in &memo[l] {
+                for y in &memo[rr] {
+                    v.push(cat(x.clone(), y.clone()));
+                    v.push(alt(x.clone(), y.clone()));
+                    v.push(diff(x.clone(), y.clone()));
+                }
+            }
+        }
+        memo.push(v);
+    }
+    // `$` only at the tail of a rule or right context (the quantifier of the property); note that
+    // `$ $v` is not even expressible: `$$v` is a built-in.
+    fn eoi_ok(r: &Re, tail: bool) -> bool {
+        match r {
+            Re::Eoi => tail,
+            Re::Star(x) | Re::Plus(x) | Re::Opt(x) => eoi_ok(x, false),
+            Re::Cat(x, y) => eoi_ok(x, false) && eoi_ok(y, tail),
+            Re::Alt(x, y) => eoi_ok(x, tail) && eoi_ok(y, tail),
+            Re::Diff(x, y) => eoi_ok(x, false) && eoi_ok(y, false),
+            _ => true,
+        }
+    }
+    memo.into_iter().flatten().filter(|r| eoi_ok(r, true)).collect()
+}
+
+fn parser_job(size: usize, paren_size: usize, stride: usize, viols: &mut Vec<Value>) -> Value {
+    let trees = parser_trees(size);
+    let mut printed = 0u64;
+    let mut factored = 0u64;
+    let mut distinct_texts: HashSet<String> = HashSet::new();
+    let mut samples = vec![];
+    let report = |viols: &mut Vec<Value>, kind: &str, tree: &Re, text: &str, detail: String| {
+        if viols.len() < 30 {
+            viols.push(json!({"kind": kind, "definition": text, "input": null, "detail": format!("tree {tree:?}: {detail}")}));
+        }
+    };
+    for (ti, t) in trees.iter().enumerate() {
+        if t.size() == size && ti % stride != 0 {
+            continue;
+        }
+        // (a) minimal, (b) full
+        let mut texts = vec![("minimal", re::print_min(t)), ("full", re::print_full(t))];
+        // (c) each subset of redundant parentheses
+        if t.size() <= paren_size {
+            let n = {
+                let mut v = vec![];
+                subtrees(t, &mut v);
+                v.len()
+            };
+            for mask in 1u64..(1 << n) {
+                let mut m = mask;
+                let mut bit = 0;
+                texts.push(("redundant", print_with_parens(t, &mut m, &mut bit, 0)));
+            }
+        }
+        for (how, text) in &texts {
+            printed += 1;
+            if samples.len() < 4 && t.size() == 4 && *how == "minimal" && text.contains('#') && text.contains('|') {
+                samples.push(json!({"tree": format!("{t:?}"), "minimal": text, "full": re::print_full(t)}));
+            }
+            distinct_texts.insert(text.clone());
+            match parse_regex_text(&format!("let v = 'c';\n{text} = 0,\n")) {
+                Err(e) => report(viols, "parse", t, text, format!("{how} printing rejected: {e}")),
+                Ok(items) => {
+                    let got = items.iter().find(|i| i.0.is_none()).map(|i| i.1.clone());
+                    if got.as_ref() != Some(t) {
+                        report(viols, "parse", t, text, format!("{how} printing parsed as {got:?}"));
+                    }
+                }
+            }
+        }
+        // as right context, and as a `let` body
+        if t.size() <= 3 {
+            printed += 1;
+            let text = format!("let v = 'c';\nlet w = {};\n'a' > {} = 0,\n", re::print_min(t), re::print_min(t));
+            match parse_regex_text(&text) {
+                Err(e) => report(viols, "parse", t, &text, format!("rejected: {e}")),
+                Ok(items) => {
+                    let w = items.iter().find(|i| i.0.as_deref() == Some("w")).map(|i| i.1.clone());
+                    let c = items.iter().find(|i| i.0.is_none()).and_then(|i| i.2.clone());
+                    if w.as_ref() != Some(t) || c.as_ref() != Some(t) {
+                        report(viols, "parse", t, &text, format!("let body parsed as {w:?}, right context as {c:?}"));
+                    }
+                }
+            }
+        }
+        // (d) every subtree factored into a top-level `let`: `$x` stands for its regex as a unit
+        if t.size() <= 4 && t.size() >= 2 {
+            let mut subs = vec![];
+            subtrees(t, &mut subs);
+            for sub in subs.iter().skip(1) {
+                let mut done = false;
+                let with_var = replace_first(t, sub, &Re::Var("x".into()), &mut done);
+                let text = format!("let v = 'c';\nlet x = {};\n{} = 0,\n", re::print_min(sub), re::print_min(&with_var));
+                factored += 1;
+                match parse_regex_text(&text) {
+                    Err(e) => report(viols, "let", t, &text, format!("rejected: {e}")),
+                    Ok(items) => {
+                        let x = items.iter().find(|i| i.0.as_deref() == Some("x")).map(|i| i.1.clone());
+                        let rule = items.iter().find(|i| i.0.is_none()).map(|i| i.1.clone());
+                        let mut env = re::Env::new();
+                        if let Some(x) = x {
+                            env.insert("x".into(), x);
+                        }
+                        env.insert("v".into(), Re::Char('c'));
+                        let mut env0 = re::Env::new();
+                        env0.insert("v".into(), Re::Char('c'));
+                        let got = rule.map(|r| r.subst(&env));
+                        if got != Some(t.subst(&env0)) {
+                            report(viols, "let", t, &text, format!("after substitution: {got:?}"));
+                        }
+                    }
+                }
+            }
+        }
+    }
+    json!({"trees": trees.len(), "size": size, "printings_parsed": printed, "factorings_parsed": factored, "distinct_texts": distinct_texts.len(), "samples": samples})
+}
 
 pub fn main(a: &[String]) {
-    eprintln!("unknown command {:?}", a.get(1));
-    std::process::exit(2);
+    let cmd = a.get(1).map(|s| s.as_str()).unwrap_or("");
+    std::panic::set_hook(Box::new(|_| {}));
+    let t0 = Instant::now();
+    let mut viols: Vec<Value> = vec![];
+    let mut out = match cmd {
+        "rangemap" => {
+            // rangemap <universe> <tagged universe> <tagged depth>
+            let n: u32 = a.get(2).and_then(|s| s.parse().ok()).unwrap_or(8);
+            let tn: u32 = a.get(3).and_then(|s| s.parse().ok()).unwrap_or(5);
+            let td: usize = a.get(4).and_then(|s| s.parse().ok()).unwrap_or(3);
+            let unit = rangemap_unit(n, &mut viols);
+            let tagged = rangemap_tagged(tn, td, &mut viols);
+            let tagged2 = rangemap_tagged(n.min(7), 2, &mut viols);
+            json!({"unit": unit, "tagged": tagged, "tagged_depth2": tagged2})
+        }
+        "classexpr" => {
+            let depth: usize = a.get(2).and_then(|s| s.parse().ok()).unwrap_or(3);
+            let stride: usize = a.get(3).and_then(|s| s.parse().ok()).unwrap_or(1);
+            let reg = class_regress(&mut viols);
+            let e = classexpr(depth, stride, &mut viols);
+            json!({"regress": reg, "enumerated": e})
+        }
+        "builtins" => builtins_job(&mut viols),
+        "parser" => {
+            let size: usize = a.get(2).and_then(|s| s.parse().ok()).unwrap_or(4);
+            let psize: usize = a.get(3).and_then(|s| s.parse().ok()).unwrap_or(3);
+            let stride: usize = a.get(4).and_then(|s| s.parse().ok()).unwrap_or(1);
+            parser_job(size, psize, stride, &mut viols)
+        }
+        _ => {
+            eprintln!("unknown command {cmd:?}");
+            std::process::exit(2);
+        }
+    };
+    out["violations"] = json!(viols);
+    out["wall_s"] = json!(t0.elapsed().as_secs_f64());
+    println!("{out}");
 }
